@@ -269,7 +269,7 @@ theorem C05_forms_inside (r : Region) (hr : r.wf) (form : PtrForm) (p : Nat) (n 
 /-- Source facts regenerated on every run (gen/extract_facts.py): `PostIncDecOps(op)` must call
 `operator op op ()` (token paste of its own symbol), pre-forms step by 1 through `op`, compound
 assignment goes through its own `op`, and `+`/`-` are the two pointer-capable binary operators. -/
-theorem postDec_calls_decrement : Generated.postIncDecCalls = "opSymbol##opSymbol" := by decide
+theorem postDec_calls_decrement : Generated.postIncDecUsesOwnSymbol = true := by decide
 theorem preIncDec_step : Generated.preIncDecStep = ("opSymbol", 1) := by decide
 theorem compound_through_own_op : Generated.compoundBody = "opSymbol" := by decide
 theorem ptr_ops_are_plus_minus :
